@@ -1,0 +1,22 @@
+//go:build verif
+
+// Contracts for C03: CREATE never destroys or silently reuses an existing file (nfs_proc_create.go).
+// Checked by /verif/govc (comment-only file). The backend is modelled by the requests issued to it (mutlog counts
+// modifying requests; AbsfsNFS.Lookup is proved never to modify, C08). "The name exists" is what the handler's own
+// look-before-create found: the local lookupErr is nil.
+//   - the backend's Create (which truncates) is reached only after that lookup failed;
+//   - when the name exists, the only modifying request a CREATE may issue is the truncation to an explicitly
+//     requested size of an UNCHECKED create - every other combination of mode, sattr3 and verifier issues none;
+//   - GUARDED on an existing name answers NFS3ERR_EXIST.
+package absnfs
+
+//@ also NFSProcedureHandler.handleCreate
+//@ callassert AbsfsNFS.Create : [create-only-when-absent] {C03} !isnil(lookupErr)
+//@ callassert NFSNode.Truncate : [truncate-only-explicit-size] {C03} isnil(lookupErr) && createHow == 0 && setSize && arg1 == newSize
+//@ callassert NFSNode.Truncate : [truncate-is-first-mutation] {C03} mutlog == old(mutlog)
+// at every point a reply is taken from its buffer:
+//@ callassert bytes.Buffer.Bytes : [existing-object-untouched] {C03} isnil(lookupErr) && !(createHow == 0 && setSize) ==> mutlog == old(mutlog)
+//@ callassert bytes.Buffer.Bytes : [guarded-existing-answers-exist] {C03} isnil(lookupErr) && createHow == 1 ==> be32(wdata[addr(buf)], 0) == 17 && mutlog == old(mutlog)
+// known finding C03-exclusive-verifier: the create verifier is never stored, so an EXCLUSIVE create of an existing
+// name is answered NFS3_OK whatever its verifier (the existing suite requires NFS3_OK there)
+//@ callassert bytes.Buffer.Bytes : [kf-exclusive-existing-checks-verifier] {C03} !(isnil(lookupErr) && createHow == 2 && be32(wdata[addr(buf)], 0) == 0)
